@@ -1,14 +1,85 @@
 import DirectVerif.Gen.C20
 /-!
-# Bridge C20 — structural facts read from the source agree with what the model assumes
+# Bridge C20 — what the translator read from the source equals what the model computes
 
-`build_transforms_from_environment` removes exactly the key `masking` from a dataset block's `transforms` before it
-flattens them into keyword arguments; the model's `transformsCheck` removes `tables.kMasking`.
+* the string arithmetic of every name look-up (`load_model_from_name`, `load_model_config_from_name`, `setup_engine`,
+  `load_dataset_config`, `build_operators`, `build_masking_function`, `build_dataset`, `Engine.build_metrics`), translated
+  from the Python AST to functions on code-point lists, equals the model's `…Target` functions **for every name**;
+* the statement order of `setup_common_environment` is the one `mergeCheck` / `checkConfig` assume: models are loaded and
+  merged before the key loop, the loop skips `models` / `additional_models`, skips falsy sections, resolves the dataset config
+  classes of a section before merging it, merges every remaining key exactly once, and operators / model / engine come after;
+* `dict_flatten` recurses into maps, drops the intermediate key and keeps leaves under their own key (`flattenKVs`);
+* `build_transforms_from_environment` / `build_inference_transforms` remove exactly `masking` before flattening.
 -/
 namespace DirectVerif.Bridge.C20
 open DirectVerif DirectVerif.Config DirectVerif.Gen.C20
 
-theorem removed_transform_keys_eq : removedTransformKeys = [tables.strOf tables.kMasking] := by decide +kernel
+theorem load_model_target_eq : loadModelTarget = modelTarget := by
+  funext n; simp [loadModelTarget, modelTarget, strDirectNn]
+
+theorem load_model_config_target_eq : loadModelConfigTarget = modelConfigTarget := by
+  funext n; simp [loadModelConfigTarget, modelConfigTarget, strDirectNn, strDotConfig, strConfig]
+
+theorem setup_engine_target_eq : setupEngineTarget = engineTarget := by
+  funext n e; cases e <;> simp [setupEngineTarget, engineTarget, strDirectNn, strEngineMod, strEngine, dot]
+
+theorem load_dataset_config_target_eq : loadDatasetConfigTarget = datasetConfigTarget := by
+  funext n; simp [loadDatasetConfigTarget, datasetConfigTarget, strModDatasetsConfig, strConfig]
+
+theorem build_operators_target_eq : buildOperatorsTarget = operatorTarget := by
+  funext n; simp [buildOperatorsTarget, operatorTarget, strModTransforms]
+
+theorem build_masking_function_target_eq : buildMaskingFunctionTarget = maskFuncTarget := by
+  funext n; simp [buildMaskingFunctionTarget, maskFuncTarget, strModSubsample, strMaskFunc]
+
+theorem build_dataset_target_eq : buildDatasetTarget = datasetClassTarget := by
+  funext n; simp [buildDatasetTarget, datasetClassTarget, strModDatasets, strDataset]
+
+theorem build_metrics_target_eq : buildMetricsTarget = functionalTarget := by
+  funext n; simp [buildMetricsTarget, functionalTarget, strModFunctionals]
+
+/-! ## statement order of `setup_common_environment` -/
+
+/-- `xs` occur in `ys` in this order (other entries in between are ignored: harmless rewrites stay quiet) -/
+def subseq : List Nat → List Nat → Bool
+  | [], _ => true
+  | _ :: _, [] => false
+  | x :: xs, y :: ys => if x = y then subseq xs ys else subseq (x :: xs) ys
+
+/-- the order facts the model relies on -/
+def mergeOrderOk (steps : List (Nat × Nat)) : Bool :=
+  let codes := steps.map (·.1)
+  -- defaults and models before the loop, the loop before operators / model / engine
+  subseq [2, 3, 4, 5, 9, 15, 16, 17] codes &&
+  subseq [2, 6, 9] codes && subseq [2, 7, 9] codes && subseq [2, 8, 9] codes &&
+  -- inside the loop: skip list first, then the falsy-section skip, dataset config classes, then the merge — once, at loop level
+  subseq [9, 10, 11, 12, 14] codes && subseq [9, 10, 11, 13, 14] codes &&
+  (steps.filter fun s => s.1 = 14) == [(14, 1)] &&
+  (steps.filter fun s => s.1 = 10) == [(10, 1)] &&
+  (steps.filter fun s => s.1 = 9) == [(9, 0)] &&
+  -- every one-off step occurs exactly once
+  ([2, 3, 4, 5, 6, 7, 8, 11, 12, 13, 15, 16, 17].all fun c => (codes.filter (· = c)).length = 1)
+
+theorem merge_order_as_modelled : mergeOrderOk mergeSteps = true := by decide +kernel
+
+/-- the keys skipped by the loop / treated as typed sections are the model's -/
+theorem merge_keys_as_modelled :
+    mergeSkippedKeys = [tables.strOf tables.kModels, tables.strOf tables.kAdditionalModels] ∧
+    mergeSectionKeys = [tables.strOf tables.kTraining, tables.strOf tables.kValidation, tables.strOf tables.kInference] := by
+  decide +kernel
+
+/-- a wrong order is rejected by the predicate (merge before the models are loaded; two merges) -/
+example : mergeOrderOk [(2, 0), (9, 0), (10, 1), (11, 2), (12, 4), (13, 3), (14, 1), (3, 0), (4, 0), (5, 0), (6, 0), (7, 0),
+    (8, 0), (15, 0), (16, 0), (17, 0)] = false := by decide
+example : mergeOrderOk (mergeSteps ++ [(14, 1)]) = false := by decide +kernel
+
+/-! ## `dict_flatten`, removed keys, well-known keys -/
+
+theorem dict_flatten_as_modelled : dictFlattenShape = [1, 1, 1, 1] := by decide
+
+theorem removed_transform_keys_eq :
+    removedTransformKeys = [tables.strOf tables.kMasking] ∧ removedInferenceTransformKeys = [tables.strOf tables.kMasking] := by
+  decide +kernel
 
 /-- the well-known keys of the tables are the strings the code uses -/
 theorem well_known_keys :
